@@ -115,6 +115,8 @@ pub enum ErrorKind {
     CanNotDelete,
     #[error("VIEW aliases mismatch query result")]
     ViewAliasesMismatch,
+    #[error("cannot drop table {0:?} because view {1:?} depends on it")]
+    DependedByView(String, String),
     #[error("pragma does not exist: {0}")]
     NoPragma(String),
 }
